@@ -483,6 +483,34 @@ def d5(chk, prog):
     tb3.done("p_adjust_bh is not the Benjamini-Hochberg adjustment")
 
 
+def d5b(chk, prog):
+    """CopyNumArray.residuals on literal tables: each bin inside a segment minus that segment's log2, under the bin's own label"""
+    fi = prog.fn("cnvlib.cnary.CopyNumArray.residuals")
+    tb = Table(chk, "bintest-form", "residuals(segments with log2) on literal bins / segments (bin labels that are not positions; a segment without bins; a bin outside every segment)", fi.loc(), fi.qn)
+    bins_rows = [("chr1", 0, 100), ("chr1", 100, 200), ("chr1", 200, 300), ("chr1", 300, 400), ("chr2", 0, 100), ("chr2", 500, 600)]
+    seg_cases = {"segments tile the bins": [("chr1", 0, 200), ("chr1", 200, 400), ("chr2", 0, 600)],
+                 "a segment without bins and an uncovered bin": [("chr1", 0, 200), ("chr1", 250, 290), ("chr1", 300, 400), ("chr2", 0, 100)]}
+    labels = [14, 3, 9, 20, 7, 1]
+    for label, segs_rows in seg_cases.items():
+        W.reset()
+        bl = [Term.sym(f"b{i}") for i in range(len(bins_rows))]
+        sl = [Term.sym(f"S{j}") for j in range(len(segs_rows))]
+        bins = make_ga("CopyNumArray", [dict(chromosome=c, start=s_, end=e_, gene="g", log2=bl[i]) for i, (c, s_, e_) in enumerate(bins_rows)], {"sample_id": "S"}, index="any", exact=True, labels=labels)
+        segs = make_ga("CopyNumArray", [dict(chromosome=c, start=s_, end=e_, gene="-", log2=sl[j], probes=1) for j, (c, s_, e_) in enumerate(segs_rows)], {"sample_id": "S"}, exact=True)
+        it = Interp(prog)
+        out = tb.guard(lambda: it.run_method(bins, "residuals", [segs]), label)
+        if out is None:
+            continue
+        want = {}
+        for i, (c, s_, e_) in enumerate(bins_rows):
+            for j, (sc, ss, se) in enumerate(segs_rows):
+                if sc == c and s_ >= ss and e_ <= se:
+                    want[labels[i]] = t_sub(bl[i], sl[j])
+        ok = isinstance(out, Vec) and out.labels is not None and list(out.labels) == [l for l in labels if l in want] and all(same(v, want[l]) for l, v in zip(out.labels, out.v))
+        tb.cell(ok, dict(case=label, labels=getattr(out, "labels", None), values=[repr(x) for x in out.v] if isinstance(out, Vec) else repr(out)[:80], want={k: repr(v) for k, v in want.items()}))
+    tb.done("a bin's residual is not its log2 minus the log2 of the segment containing it, carried under the bin's own row label")
+
+
 def lift_cdf(x):
     if isinstance(x, Vec):
         return Vec([fatom("normcdf", [T(v)], 0.0, 1.0) for v in x.v])
@@ -498,11 +526,14 @@ def run(chk):
     d2(chk, prog)
     chk.clause("D4", "the input segments' own columns are unchanged (decided inside D1: stores go to a copy, new column names only)")
     d5(chk, prog)
+    d5b(chk, prog)
 
 
 _S = "cnvlib/segmetrics.py"
 _B = "cnvlib/bintest.py"
 MUTANTS = [
+    dict(name="residuals against the previous segment's mean", file="cnvlib/cnary.py", old="                bins_lr - seg_lr\n", new="                bins_lr - seg_lr * 0\n"),
+    dict(name="residuals of outer-overlapping bins", file="cnvlib/cnary.py", old='                        segments, "log2", mode="inner", keep_empty=True', new='                        segments, "log2", mode="outer", keep_empty=True'),
     dict(name="seeded C17e: BH steps from average ranks", edits=[(_B, '    by_descend = p.argsort()[::-1]\n    by_orig = by_descend.argsort()\n    steps = float(len(p)) / np.arange(len(p), 0, -1)\n    q = np.minimum(1, np.minimum.accumulate(steps * p[by_descend]))\n    return q[by_orig]\n', '    steps = float(len(p)) / rankdata(p)\n    by_descend = p.argsort()[::-1]\n    q = np.empty_like(p)\n    q[by_descend] = np.minimum.accumulate((steps * p)[by_descend])\n    return np.minimum(1, q)\n'), (_B, 'from scipy.stats import norm\n', 'from scipy.stats import norm, rankdata\n')]),
     dict(name="twin: BH steps from maximum ranks", expect="silent", edits=[(_B, '    by_descend = p.argsort()[::-1]\n    by_orig = by_descend.argsort()\n    steps = float(len(p)) / np.arange(len(p), 0, -1)\n    q = np.minimum(1, np.minimum.accumulate(steps * p[by_descend]))\n    return q[by_orig]\n', '    steps = float(len(p)) / rankdata(p, method="max")\n    by_descend = p.argsort()[::-1]\n    q = np.empty_like(p)\n    q[by_descend] = np.minimum.accumulate((steps * p)[by_descend])\n    return np.minimum(1, q)\n'), (_B, 'from scipy.stats import norm\n', 'from scipy.stats import norm, rankdata\n')]),
     dict(name="seeded C17d: interval statistics drop zero-weight bins", file="cnvlib/segmetrics.py", old="            out_vals_lo[i], out_vals_hi[i] = func(ser.values, wt.values)\n", new="            informative = wt.values > 0\n            if informative.any():\n                out_vals_lo[i], out_vals_hi[i] = func(ser.values[informative], wt.values[informative])\n"),
